@@ -406,14 +406,25 @@ impl Scenario for C17Bridge {
                     }
                 }
                 6 => {
-                    let mut l = Frame::from(gens::raw_message(cx, &addrs)).to_bytes_with_newline();
+                    // a frame line (a full 16-byte data chunk one time in three: the dominant shape on the
+                    // wire) with one character hit: another hex digit (checksum or length no longer fit),
+                    // or a character that is no hex digit at all
+                    let m = if cx.chance(1, 3) { Message::SendData(flipdot_core::Offset(16 * cx.draw(8) as u16), gens::data(cx.bytes(16))) } else { gens::raw_message(cx, &addrs) };
+                    let mut l = Frame::from(m).to_bytes_with_newline();
                     let body = l.len() - 2;
                     let p = 1 + cx.draw(body as u64 - 1) as usize;
-                    l[p] = match l[p] {
-                        b'0' => b'1',
-                        _ => b'0',
-                    };
-                    lines.push((l, "bad-checksum-or-length", Some(None)));
+                    if cx.chance(1, 2) {
+                        l[p] = match l[p] {
+                            b'0' => b'1',
+                            _ => b'0',
+                        };
+                        lines.push((l, "bad-checksum-or-length", Some(None)));
+                    } else {
+                        const NOT_HEX: &[u8] = b"GHIJKLMNOPQRSTUVWXYZghijklmnopqrstuvwxyz /@`.;-_#\x00\x7f\xb1\xc1";
+                        l[p] = *cx.pick(NOT_HEX);
+                        cx.probe("frame_line_with_a_non_hex_character");
+                        lines.push((l, "non-hex-character", Some(None)));
+                    }
                     cx.probe("undecodable_line_at_bridge");
                 }
                 _ => {
